@@ -120,6 +120,10 @@ class World:
 
     def backend_run(self, env=None):
         proj.settle()
+        if not os.path.isdir(self.bld):
+            # the fault hit a first configure before the build directory existed: there is
+            # nothing for the back end to run, which is a visible failure by itself
+            return 2, 'no build directory: %s' % self.bld
         return proj.build(self.bld, self.backend, [], env=env or self.plain_env)
 
     def files(self):
